@@ -491,14 +491,32 @@ def _check_disambiguate(ctx, model):
 
 def _check_used_identifiers(ctx, model):
     m, fn = model.func(f"{AN}:get_all_used_identifiers")
-    src = ast.unparse(fn)
-    ok = ".get_read_variables()" in src and ".get_written_variables()" in src
-    loops = [n for n in ast.walk(fn) if isinstance(n, ast.For)]
     param = fn.args.args[0].arg
-    ok = ok and len(loops) == 1 and ast.unparse(loops[0].iter) == param \
-        and all(isinstance(s, ast.AugAssign) and isinstance(s.op, ast.BitOr)
-                for s in loops[0].body)
+    ok = False
+    for ps in summarize(fn, plain=True, loop_mode="1"):
+        if ps.term != "return":
+            continue
+        terms = _or_terms(ps.retval)
+        el = ("elem", ("param", param))
+        reads = any(t[0] == "call" and t[1].endswith(".get_read_variables")
+                    and len(t) >= 5 and t[4][1] == el for t in terms)
+        writes = any(t[0] == "call" and t[1].endswith(".get_written_variables")
+                     and len(t) >= 5 and t[4][1] == el for t in terms)
+        ok = reads and writes
     ctx.ob("P/get_all_used_identifiers/union", ok, m.loc(fn),
            "union of read and written variables of every statement" if ok else
            "get_all_used_identifiers is not the union of reads and writes over "
            "the whole stream")
+
+
+def _or_terms(v):
+    if isinstance(v, tuple) and v and v[0] == "binop" and v[1] == "BitOr":
+        return _or_terms(v[2]) + _or_terms(v[3])
+    if isinstance(v, tuple) and v and v[0] == "call" and v[1].endswith(".union"):
+        out = []
+        if len(v) >= 5:
+            out += _or_terms(v[4][1])
+        for a in v[2]:
+            out += _or_terms(a)
+        return out
+    return [v]
